@@ -1470,7 +1470,7 @@ func (r *Run) bubble() {
 		r.mu.Lock()
 		defer r.mu.Unlock()
 		for _, cl := range r.cls {
-			if !cl.done || cl.cbPending > 0 {
+			if !cl.done || (cl.cbPending > 0 && !(r.prof != nil && r.prof.CloseInflight)) {
 				return false
 			}
 		}
@@ -1522,6 +1522,22 @@ func (r *Run) bubble() {
 		r.setPhase("close")
 		closeErr = r.db.Close()
 		r.setPhase("")
+		// every CommitWith callback is guaranteed to run, also when Close overtook it
+		for i := 0; i < 5000; i++ {
+			pending := 0
+			r.mu.Lock()
+			for _, cl := range r.cls {
+				pending += cl.cbPending
+			}
+			r.mu.Unlock()
+			if pending == 0 {
+				break
+			}
+			if i == 4999 {
+				r.violate([]string{"C38", "C03"}, "callback-never-ran", "%d CommitWith/Subscribe callbacks had not run 5000 scheduling steps after Close returned", pending)
+			}
+			e.Point("client.poll")
+		}
 		r.mu.Lock()
 		closed = true
 		r.mu.Unlock()
